@@ -25,7 +25,7 @@ RULE = ("message sets are produced by really running ProgGen programs (remote su
         "once at the end. A third of the programs run with a second, failing destination and/or raising exception extractors, so the tasks "
         "contain eliot:destination_failure reports and extractor tracebacks; one case in 40 has an action with 250-400 direct children, one in 40 a stream with 1001-1200 top-level actions open at the same "
         "time; 8% of the untyped messages carry a user field named action_status; one Parser value is continued along two suffixes and compared with "
-        "fresh parsers; the lists Parser.add returns are mutated by the caller; a third of the parse_stream inputs are PMaps. non-trivial = task with >=2 nesting levels or a remote sub-task; distinct by (task shape, order class)")
+        "fresh parsers; the lists Parser.add returns are mutated by the caller; a third of the parse_stream inputs are PMaps; in a fifth of the streams the task ids are ones minted elsewhere (upper-case GUIDs, 'Order-n', different tasks whose ids differ only in letter case). non-trivial = task with >=2 nesting levels or a remote sub-task; distinct by (task shape, order class)")
 ASSUMPTIONS = ["message sets come from well-formed tasks (each position used once)"]
 EXHAUSTIVE_NOTE = "permutations and subsets of every task with <= 6 (quick) / <= 7 (thorough) messages are enumerated completely"
 
@@ -211,6 +211,24 @@ def run_case(spec):
     import json as _json
     # as a log reader gets them: decoded from JSON text, so equal strings are distinct objects
     msgs = [_json.loads(_json.dumps(m)) for m in tape.msgs("rec")]
+    if spec["i"] % 5 == 2:
+        # task ids minted elsewhere (continue_task accepts any text before the '@'): upper-case GUIDs, "Order-42", and pairs of different
+        # tasks whose ids differ only in the case of their letters - ids are opaque, distinct strings are distinct tasks
+        rename = {}
+        for m in msgs:
+            u = m["task_uuid"]
+            if u not in rename:
+                j = len(rename)
+                if j % 3 == 0:
+                    rename[u] = u.upper()
+                elif j % 3 == 1:
+                    rename[u] = "Order-%dX-%s" % (j, u[:6])
+                else:
+                    rename[u] = rename[prev].swapcase() if rename[prev].swapcase() != rename[prev] else u + "-B"
+                prev = u
+        for m in msgs:
+            m["task_uuid"] = rename[m["task_uuid"]]
+        res["counters"]["streams_with_foreign_task_ids"] = 1
     by_uuid = {}
     for m in msgs:
         by_uuid.setdefault(m["task_uuid"], []).append(m)
@@ -422,4 +440,6 @@ def finalize(agg, tier):
     c = agg["counters"]
     if c.get("tasks_exhaustively_permuted", 0) < 50 or c.get("subsets_fed", 0) < 1000:
         return "too few exhaustively explored tasks / subsets"
+    if c.get("streams_with_foreign_task_ids", 0) < 20:
+        return "too few streams with task ids minted elsewhere"
     return None
